@@ -202,10 +202,10 @@ def _build_cdda(inputs):
     def run():
         tracks = []
         for i, t in enumerate(inputs["titles"]):
-            tracks.append({"number": i + 1, "mode": "AUDIO", "title": t, "indices": [(1, 0, 0, 2 * i)]})
+            tracks.append({"number": i + 1, "mode": "AUDIO", "title": t, "indices": [(1, (2 * i) // 4500, ((2 * i) // 75) % 60, (2 * i) % 75)]})
         n = len(tracks)
         binb = L.pcm_words(7, (2352 * 2 * n + inputs.get("tail", 0)) // 2 + 1)[:2352 * 2 * n + inputs.get("tail", 0)]
-        cue = L.cw.build_cue(tracks)
+        cue = L.cw.build_cue(tracks, style=inputs.get("style"))
         with L.Workdir() as w:
             sub = w.sub("in")
             cue_path = L.cw.write_bin_cue(sub, binb, cue)
@@ -290,11 +290,18 @@ def _small_cdda(tier, seed, shard=(0, 1)):
     rnd = random.Random(4000 + seed)
     for _ in range(10 if tier == "quick" else 200):
         cases.append([rnd.choice(TITLES) for _ in range(rnd.randint(1, 4))])
+    styles = [None, {"blank_lines": 1}, {"blank_lines": 2, "blank_fill": " \t", "eol": "\r\n"}, {"case": "lower", "indent": False},
+              {"track_extra": ["FLAGS DCP", "REM was INDEX 01 00:00:01 before"], "header_extra": ["REM GENRE x", 'PERFORMER "p"'], "title_first": False},
+              {"lead": "   ", "trail": " ", "leading_blank_lines": 2, "track_extra_after": ['REM ORIGINAL TITLE "other"']}]
     k = 0
     for c in cases:
         k += 1
         if k % shard[1] == shard[0]:
-            yield {"titles": c, "tail": rnd.choice((0, 1, 3, 5))}
+            yield {"titles": c, "tail": rnd.choice((0, 1, 3, 5)), "style": styles[k % len(styles)]}
+    # long sheets (the text of a 99-track sheet is well over 4 KiB): every track still gets its own window
+    if shard[0] == 0:
+        for n in ((60,) if tier == "quick" else (60, 99)):
+            yield {"titles": [f"Long title number {i:03d} of a long disc" for i in range(n)], "tail": 3, "style": {"blank_lines": 1}}
 
 
 @contract("e2e:cdda_names", props=["C06", "C10", "C03"], abstract=True)
@@ -306,7 +313,8 @@ CONCRETE["e2e:cdda_names"] = {
     "build": _build_cdda, "small": _small_cdda, "oracle": _oracle_cdda, "shards": 4,
     "nontrivial": lambda i, s: s["kind"] == "return",
     "bound": "cue sheets of 1..4 audio tracks with TITLEs from a 34-entry pool (duplicates, '/', '\\\\', '..', control characters, "
-             "leading/trailing blanks, empty, missing), bins with 0..5 trailing bytes; destination two levels below the work directory "
+             "leading/trailing blanks, empty, missing), bins with 0..5 trailing bytes; six cue styles (blank lines, CRLF, lower case, unknown lines that mention INDEX/TITLE, "
+             "leading blanks) and 60/99-track sheets; destination two levels below the work directory "
              "so that an escaping path is observable",
     "timeout_s": 60.0, "budget_quick": 120, "budget_thorough": 600,
 }
